@@ -407,4 +407,37 @@ Section MountProofs.
   Proof.
     intros _ _ Hb Hnb _ Hres. exact (resolve_confined slash_dot base rel q Hb Hres Hnb).
   Qed.
+  (* Histories: a lookup depends on the mount table, the path and the working directory set by the LAST
+     Chdir - on nothing else that happened before (no memo of earlier lookups, no trace of earlier cwds). *)
+  Lemma vrun_app (keys : list str) : forall ops1 (cwd : str) ops2,
+    vrun keys cwd (ops1 ++ ops2) =
+    vrun keys cwd ops1 ++ vrun keys (fold_left (fun c o => match o with VChdir d => d | VUse _ => c end) ops1 cwd) ops2.
+  Proof.
+    induction ops1 as [|o r IH]; intros cwd ops2; cbn [app vrun fold_left]; [reflexivity|].
+    destruct o as [d|p]; cbn [vrun]; rewrite IH; reflexivity.
+  Qed.
+
+  Lemma vrun_uses (keys : list str) : forall ops (cwd : str), forallb is_use ops = true ->
+    fold_left (fun c o => match o with VChdir d => d | VUse _ => c end) ops cwd = cwd.
+  Proof.
+    induction ops as [|o r IH]; intros cwd H; cbn [fold_left]; [reflexivity|].
+    cbn [forallb] in H. apply andb_true_iff in H. destruct H as [Ho Hr].
+    destruct o; [discriminate|]. apply IH. exact Hr.
+  Qed.
+
+  Theorem history_memoryless (keys : list str) (cwd0 : str) before d between p :
+    forallb is_use between = true ->
+    exists earlier,
+      vrun keys cwd0 (before ++ VChdir d :: between ++ [VUse p]) = earlier ++ [find_mount d keys p].
+  Proof.
+    intros Hu. rewrite vrun_app. cbn [vrun]. rewrite vrun_app. rewrite (vrun_uses keys between d Hu).
+    cbn [vrun]. eexists. rewrite app_assoc. reflexivity.
+  Qed.
+
+  Theorem history_initial (keys : list str) (cwd0 : str) between p :
+    forallb is_use between = true ->
+    exists earlier, vrun keys cwd0 (between ++ [VUse p]) = earlier ++ [find_mount cwd0 keys p].
+  Proof.
+    intros Hu. rewrite vrun_app. rewrite (vrun_uses keys between cwd0 Hu). cbn [vrun]. eexists. reflexivity.
+  Qed.
 End MountProofs.
